@@ -32,10 +32,17 @@
     surface facing the sun gets DNI ...... C10_facing_sun
     the formulas of the source ........... Proofs/C10Gen: C10_gen_eq_* (model = regenerated translation)
     defaults / tables of the source ...... C10_constants_pinned, C10_monthly_tables
+    histories on ONE object (round 3) .... object state machines Model/SkyObj (Wea; sky condition held by a
+                                           design day): C10_history_refines_fresh, C10_refused_preserves,
+                                           C10_read_pure, C10_history_closure, C10_history_up_surface (Wea);
+                                           C10_sky_history_refines_fresh, C10_sky_refused_preserves,
+                                           C10_sky_read_pure, C10_sky_history_clearness,
+                                           C10_sky_history_le_extraterrestrial, C10_sky_history_closure
 -/
 import Ladybug.Proofs.C10Lemmas
 import Ladybug.Proofs.C10Dirint
 import Ladybug.Proofs.C10Pinned
+import Ladybug.Proofs.C10Hist
 
 namespace Sky
 open Real
@@ -312,7 +319,198 @@ theorem C10_facing_sun (sunAlt sunAz dnr dhr refl : ℝ) (iso : Bool) (h0 : 0 < 
     ∃ r, directional sunAlt sunAz dnr dhr sunAlt sunAz refl iso = .ok r ∧ r.2.1 = dnr :=
   facing_sun sunAlt sunAz dnr dhr refl iso h0
 
+/-! ### histories on one object (round 3)
+
+The stateful classes the property anchors are modelled as state machines whose state is exactly
+the public state the user has established (Model/SkyObj): no hidden slot, no memo.  The real objects
+are compared with these machines step by step on generated histories (reads in any order and
+repeated, every setter, refused operations in between); the theorems say what that comparison
+establishes for ALL histories. -/
+
+/-- Wea, any history of reads / setters / refused operations, any read `r` afterwards: the answer is
+    the answer of a FRESH Wea constructed from the public state that the accepted setters of the
+    history establish (reads and refused operations dropped) — and those setters are all accepted
+    again when replayed alone. -/
+theorem C10_history_refines_fresh (env : WeaEnv ℝ) (o : WeaObj ℝ) (ops : List (WeaOp ℝ)) (r : WeaOp ℝ) :
+    let established := (o.run env (o.accepted env ops)).1
+    (((o.run env ops).1).step env r).2 =
+      ((WeaObj.fresh established.loc established.enforce established.timestep established.dnr
+          established.dhr).step env r).2 ∧
+    ∀ out ∈ (o.run env (o.accepted env ops)).2, out = Out.unit := by
+  intro established
+  refine ⟨?_, WeaObj.accepted_all_unit env ops o⟩
+  have h : (o.run env ops).1 = established := WeaObj.run_accepted env ops o
+  rw [h]
+  rfl
+
+/-- Wea: an operation that ends in an error (a refused setter, a rejected argument, a read that fails
+    half-way) leaves the state unchanged, hence every later read answers as if it had not happened. -/
+theorem C10_refused_preserves (env : WeaEnv ℝ) (o : WeaObj ℝ) (op r : WeaOp ℝ) (e : HErr)
+    (h : (o.step env op).2 = .err e) :
+    (o.step env op).1 = o ∧ ((o.step env op).1.step env r).2 = (o.step env r).2 := by
+  have hs := WeaObj.step_err env o op e h
+  exact ⟨hs, by rw [hs]⟩
+
+/-- Wea: reads do not change the state; so the answer of a read does not depend on which reads were
+    made before it, nor on how often (order independence of reads). -/
+theorem C10_read_pure (env : WeaEnv ℝ) (o : WeaObj ℝ) (r1 r2 : WeaOp ℝ) (h1 : r1.isRead = true) :
+    (o.step env r1).1 = o ∧ ((o.step env r1).1.step env r2) = o.step env r2 := by
+  have hs := WeaObj.step_read env o r1 h1
+  exact ⟨hs, by rw [hs]⟩
+
+/-- Wea, after ANY history: at every time step the global horizontal read is diffuse + direct ·
+    sin(altitude) and the direct horizontal read is direct · sin(altitude), for the irradiance values
+    and the sun position (location, datetime convention) of the state the history has established. -/
+theorem C10_history_closure (env : WeaEnv ℝ) (o : WeaObj ℝ) (ops : List (WeaOp ℝ)) (i : Nat)
+    (s : ℝ × ℝ) (dn dh : ℝ) :
+    let final := (o.run env ops).1
+    (final.suns env)[i]? = some s → final.dnr[i]? = some dn → final.dhr[i]? = some dh →
+    (final.ghi env)[i]? = some (dh + dn * Real.sin (s.1 * (π / 180))) ∧
+    (final.dirH env)[i]? = some (dn * Real.sin (s.1 * (π / 180))) := by
+  intro final hs hdn hdh
+  have hz : (final.dnr.zip final.dhr)[i]? = some (dn, dh) := by
+    rw [List.getElem?_zip_eq_some]; exact ⟨hdn, hdh⟩
+  constructor
+  · unfold WeaObj.ghi
+    rw [List.getElem?_zipWith, hs, hz]
+    simp only [(C10_closure_wea s.1 dn dh).1]
+  · unfold WeaObj.dirH
+    rw [List.getElem?_zipWith, hs, hdn]
+    have h1 := (C10_closure_wea s.1 dn 0).1
+    have h2 := (C10_closure_wea s.1 dn 0).2
+    rw [h2] at h1
+    simpa using h1
+
+/-- Wea, after ANY history: a successful `directional_irradiance(90, az, refl, iso)` read gives, at
+    every step whose sun is up (altitude in (0°, 90°]), a total equal to the global horizontal read
+    of the same state. -/
+theorem C10_history_up_surface (env : WeaEnv ℝ) (o : WeaObj ℝ) (ops : List (WeaOp ℝ)) (az refl : ℝ)
+    (iso : Bool) (out : List (ℝ × ℝ × ℝ × ℝ)) (i : Nat) (s : ℝ × ℝ) (dn dh : ℝ) :
+    let final := (o.run env ops).1
+    final.directional env 90.0 az refl iso = .ok out →
+    (final.suns env)[i]? = some s → final.dnr[i]? = some dn → final.dhr[i]? = some dh →
+    0 < s.1 → s.1 ≤ 90 →
+    ∃ t, out[i]? = some t ∧ (final.ghi env)[i]? = some t.1 := by
+  intro final hout hs hdn hdh h0 h90
+  have hz : (final.dnr.zip final.dhr)[i]? = some (dn, dh) := by
+    rw [List.getElem?_zip_eq_some]; exact ⟨hdn, hdh⟩
+  unfold WeaObj.directional at hout
+  obtain ⟨_, hall⟩ := mapM_ok _ _ _ hout
+  have hx : (List.zipWith (fun (s : ℝ × ℝ) (p : ℝ × ℝ) => (s, p)) (final.suns env)
+      (final.dnr.zip final.dhr))[i]? = some (s, (dn, dh)) := by
+    rw [List.getElem?_zipWith, hs, hz]
+  obtain ⟨t, ht, hf⟩ := hall i _ hx
+  refine ⟨t, ht, ?_⟩
+  have hup := C10_up_surface s.1 s.2 dn dh az refl iso h0 h90
+  simp only at hf
+  rw [hup] at hf
+  injection hf with hf
+  have hg : (final.ghi env)[i]? = some (globalHorizontal s.1 dn dh) := by
+    unfold WeaObj.ghi
+    rw [List.getElem?_zipWith, hs, hz]
+  rw [hg, ← hf]
+
+/-- Sky condition held by a design day, any history, any read afterwards: the answer is that of the
+    state the accepted setters establish (reads and refused operations dropped). -/
+theorem C10_sky_history_refines_fresh (env : SkyEnv ℝ) (o : SkyObj ℝ) (ops : List (SkyOp ℝ))
+    (r : SkyOp ℝ) :
+    (((o.run env ops).1).step env r).2 = (((o.run env (o.accepted env ops)).1).step env r).2 := by
+  rw [SkyObj.run_accepted env ops o]
+
+/-- Sky condition: an operation that ends in an error (clearness outside [0, 1.2], a non-number, a
+    setter of the other sky model, a non-Location …) leaves the state — and every later read — as before. -/
+theorem C10_sky_refused_preserves (env : SkyEnv ℝ) (o : SkyObj ℝ) (op r : SkyOp ℝ) (e : HErr)
+    (h : (o.step env op).2 = .err e) :
+    (o.step env op).1 = o ∧ ((o.step env op).1.step env r).2 = (o.step env r).2 := by
+  have hs := SkyObj.step_err env o op e h
+  exact ⟨hs, by rw [hs]⟩
+
+/-- Sky condition: reads do not change the state (order independence of reads). -/
+theorem C10_sky_read_pure (env : SkyEnv ℝ) (o : SkyObj ℝ) (r1 r2 : SkyOp ℝ) (h1 : r1.isRead = true) :
+    (o.step env r1).1 = o ∧ ((o.step env r1).1.step env r2) = o.step env r2 := by
+  have hs := SkyObj.step_read env o r1 h1
+  exact ⟨hs, by rw [hs]⟩
+
+/-- ASHRAEClearSky: whatever the history (including refused assignments), the clearness the object
+    holds stays in [0, 1.2] when it started there. -/
+theorem C10_sky_history_clearness (env : SkyEnv ℝ) (o : SkyObj ℝ) (ops : List (SkyOp ℝ))
+    (h0 : 0 ≤ o.clearness ∧ o.clearness ≤ 1.2) :
+    0 ≤ (o.run env ops).1.clearness ∧ (o.run env ops).1.clearness ≤ 1.2 := by
+  have hP : ∀ v : ℝ, clearnessOk v → (0 ≤ v ∧ v ≤ 1.2) := by
+    intro v hv
+    unfold clearnessOk at hv
+    constructor
+    · have := hv.1; norm_num at this; exact this
+    · exact hv.2
+  exact SkyObj.run_clearness env (fun v => 0 ≤ v ∧ v ≤ 1.2) hP ops o h0
+
+/-- … hence after ANY history on an original clear sky, at every hour with the sun up, in every month
+    and on every day of the year, the direct normal value a read reports is below the
+    extraterrestrial irradiance. -/
+theorem C10_sky_history_le_extraterrestrial (env : SkyEnv ℝ) (o : SkyObj ℝ) (ops : List (SkyOp ℝ))
+    (h0 : 0 ≤ o.clearness ∧ o.clearness ≤ 1.2) (alt doy : ℝ) (month : Int) (h1 : 1 ≤ month)
+    (h12 : month ≤ 12) (ha0 : 0 < alt) (ha90 : alt ≤ 90) :
+    ∃ r, designDayClearSky1 alt month (o.run env ops).1.clearness = .ok r ∧
+      r.1 ≤ extraRadiation doy 1366.1 := by
+  obtain ⟨hc0, hc1⟩ := C10_sky_history_clearness env o ops h0
+  obtain ⟨r, hr, hle⟩ := C10_clear_sky_le_extraterrestrial alt _ doy month h1 h12 ha0 ha90 hc0 hc1
+  refine ⟨(r.1, r.2, r.2 + r.1 * Transc.sin (radians alt)), ?_, hle⟩
+  unfold designDayClearSky1
+  rw [hr]
+
+/-- Sky condition, after ANY history: every hour of a successful `radiation_values` /
+    `hourly_solar_radiation` read satisfies global = diffuse + direct · sin(altitude) for the altitude
+    of the date / daylight-savings flag / location the history has established. -/
+theorem C10_sky_history_closure (env : SkyEnv ℝ) (o : SkyObj ℝ) (ops : List (SkyOp ℝ)) (k : Nat)
+    (out : List (ℝ × ℝ × ℝ)) (i : Nat) (a : ℝ) :
+    let final := (o.run env ops).1
+    final.radiation env k = .ok out → (env.alts final.date final.dls k)[i]? = some a →
+    ∃ t, out[i]? = some t ∧ t.2.2 = t.2.1 + t.1 * Real.sin (a * (π / 180)) := by
+  intro final hout ha
+  unfold SkyObj.radiation at hout
+  obtain ⟨_, hall⟩ := mapM_ok _ _ _ hout
+  obtain ⟨t, ht, hf⟩ := hall i a ha
+  refine ⟨t, ht, ?_⟩
+  cases hk : final.kind with
+  | clear =>
+    simp only [hk] at hf
+    exact (C10_closure_designday_clear a _ _ t hf).1
+  | tau =>
+    simp only [hk] at hf
+    exact (C10_closure_designday_tau a _ _ _ t hf).1
+
 /-! ### non-vacuity: the hypotheses are satisfiable on non-trivial states -/
+
+/-- a refused clearness exists in the model (11 is outside [0, 1.2]) and 1.1 is accepted -/
+example (env : SkyEnv ℝ) :
+    ((({ kind := .clear, date := 0, dls := false, clearness := 1.1, tb := 0, td := 0, use2017 := false,
+         ddLoc := 0 } : SkyObj ℝ).step env (.setClearness 11)).2 = .err .assert) ∧
+    ((({ kind := .clear, date := 0, dls := false, clearness := 1, tb := 0, td := 0, use2017 := false,
+         ddLoc := 0 } : SkyObj ℝ).step env (.setClearness 1.1)).2 = .unit) := by
+  constructor
+  · simp only [SkyObj.step]
+    split
+    · rename_i h
+      exfalso
+      unfold clearnessOk at h
+      norm_num at h
+    · rfl
+  · simp only [SkyObj.step]
+    split
+    · rfl
+    · rename_i h
+      exfalso
+      apply h
+      unfold clearnessOk
+      norm_num
+
+/-- a refused Wea setter (misaligned data) and an accepted location change exist in the model -/
+example (env : WeaEnv ℝ) (h : env.nloc = 2) :
+    (((WeaObj.fresh 0 false 1 [500, 100] [50, 10] : WeaObj ℝ).step env (.setDnr [1])).2 = .err .assert) ∧
+    (((WeaObj.fresh 0 false 1 [500, 100] [50, 10] : WeaObj ℝ).step env (.setLocation 1)).1.loc = 1) := by
+  constructor
+  · simp [WeaObj.step, WeaObj.fresh]
+  · simp [WeaObj.step, WeaObj.fresh, h]
 
 example : ∃ r, clearSky1 (30 : ℝ) 6 1 = .ok r ∧ 0 ≤ r.1 ∧ 0 ≤ r.2 :=
   C10_clear_sky_nonneg 30 1 6 (by norm_num) (by norm_num) (by norm_num) (by norm_num) (by norm_num)
